@@ -353,6 +353,9 @@ func Decrypt(priv *PrivateKey, data []byte, mode int) ([]byte, error) {
 	curve := priv.Curve
 	x := new(big.Int).SetBytes(data[:32])
 	y := new(big.Int).SetBytes(data[32:64])
+	if !curve.IsOnCurve(x, y) {
+		return nil, errors.New("Decrypt: C1 is not a point on the curve")
+	}
 	x2, y2 := curve.ScalarMult(x, y, priv.D.Bytes())
 	x2Buf := x2.Bytes()
 	y2Buf := y2.Bytes()
